@@ -298,8 +298,10 @@ def gen_new_mps(rng: Rng, cfg, style=None, qtot=None):
         q0 = 0 if rng.chance(0.8) else rng.randrange(-2, 3)
         qD, qt = gen_mps_qD(rng, qd, L, Dmax, style, q0=q0, qtot=qtot, fat=fat)
     fill = rng.wpick([('rng', 8), ('env', 1), ('scalar', 1)])
+    lowp = cfg['profile'] not in ('C08', 'C09', 'C10', 'C14', 'C15', 'C20')
     op = {'op': 'new_mps', 'qD': qD, 'style': style, 'fill': fill, 'sub': rng.sub(),
-          'entries': rng.wpick([('complex', 6), ('real', 2), ('int', 1), ('dyadic', 1)])}
+          'entries': rng.wpick([('complex', 6), ('real', 2), ('int', 1), ('dyadic', 1), ('single', 0.5 if lowp else 0), ('singlereal', 0.25 if lowp else 0),
+                                ('long', 0.25 if lowp else 0)])}
     if fill == 'scalar':
         op['value'] = rng.pick([1.0, 1, 0.5, [0.5, -0.25], 2, -1.5, 0.0])
         op['entries'] = 'asis'
@@ -391,6 +393,12 @@ def gen_session(prop: str, tier: str, seed: int) -> dict:
     for _ in range(nops):
         kind = rng.wpick(table)
         ops.append(gen_op(rng, cfg, kind))
+    # ---- representation of label / scalar arguments (lists, tuples, other integer dtypes, numpy scalars, 0-d arrays) ----
+    for op in ops:
+        if op['op'] in ('new_mps', 'new_mpo', 'tdvp', 'dmrg', 'compress', 'from_vector') and rng.chance(0.35):
+            op['rep'] = rng.randrange(0, 12)
+            if profile in ('C08', 'C09', 'C10', 'C14', 'C15', 'C20') and op['rep'] >= 5:
+                op['rep'] -= 5        # narrow / unsigned label types are kept out of the dynamics histories (tn_core.NARROWQ_OK)
     # ---- environment of every op -------------------------------------------------------------
     raise_used = False
     for op in ops:
@@ -448,7 +456,7 @@ def gen_op(rng: Rng, cfg, kind: str) -> dict:
         q0 = 0 if (rng.chance(0.7) or not any(cfg['qd'])) else rng.pick([1, -1, 2, -3])
         return {'op': 'new_mpo', 'qD': gen_mpo_qD(rng, cfg['qd'], L, min(cfg['Dmax'], 4), shift=shift, q0=q0), 'sub': s(),
                 'fill': rng.wpick([('rng', 8), ('env', 1), ('scalar', 1)]), 'value': rng.pick([1.0, 1, 0.5, 2]),
-                'entries': rng.wpick([('complex', 6), ('real', 2), ('int', 1)]),
+                'entries': rng.wpick([('complex', 6), ('real', 2), ('int', 1), ('single', 0.4), ('long', 0.2)]),
                 'magnitude': rng.wpick([('normal', 8), ('unbalanced', 1), ('tiny', 1), ('huge', 0.5)])}
     if kind == 'identity':
         return {'op': 'identity', 'scale': rng.pick([1, 1.0, 0.5, -2.0, [0.0, 1.0], 3]), 'dtype': rng.pick(['complex', 'float', 'complex'])}
@@ -497,6 +505,7 @@ def gen_op(rng: Rng, cfg, kind: str) -> dict:
         return {'op': 'kernel', 'which': rng.pick(['qr', 'svd']), 'sel': s(), 'site': s(), 'reuse': rng.chance(0.5),
                 'mutate': rng.pick(['negate', 'shift', 'scribble_result', 'permute', 'refill', 'refill']), 'sub': s(),
                 'magnitude': rng.wpick([('normal', 6), ('tiny', 1), ('huge', 1)]),
+                'qdtype': rng.pick([None, None, None, 'uint8', 'uint16', 'uint32', 'int8', 'int16', 'int32']),
                 'tol': rng.pick(DYADIC_TOLS) if rng.chance(0.5) else 0.0}
     if kind == 'tdvp':
         return {'op': 'tdvp', 'H': s(), 'psi': s(), 'sites': rng.pick([1, 1, 2]), 'dt': _dt(rng, profile, cfg.get('complete')), 'extreme': rng.chance(0.05),
